@@ -61,6 +61,9 @@ theories/FormattersProofs.vos theories/FormattersProofs.vok theories/FormattersP
 theories/Gherkin.vo theories/Gherkin.glob theories/Gherkin.v.beautified theories/Gherkin.required_vo: theories/Gherkin.v theories/Base.vo theories/UStr.vo theories/GherkinTypes.vo gen/UnicodeTables.vo gen/GherkinTables.vo
 theories/Gherkin.vio: theories/Gherkin.v theories/Base.vio theories/UStr.vio theories/GherkinTypes.vio gen/UnicodeTables.vio gen/GherkinTables.vio
 theories/Gherkin.vos theories/Gherkin.vok theories/Gherkin.required_vos: theories/Gherkin.v theories/Base.vos theories/UStr.vos theories/GherkinTypes.vos gen/UnicodeTables.vos gen/GherkinTables.vos
+theories/GherkinBlockProofs.vo theories/GherkinBlockProofs.glob theories/GherkinBlockProofs.v.beautified theories/GherkinBlockProofs.required_vo: theories/GherkinBlockProofs.v theories/Base.vo theories/UStr.vo theories/GherkinTypes.vo theories/Gherkin.vo theories/GherkinProofs.vo
+theories/GherkinBlockProofs.vio: theories/GherkinBlockProofs.v theories/Base.vio theories/UStr.vio theories/GherkinTypes.vio theories/Gherkin.vio theories/GherkinProofs.vio
+theories/GherkinBlockProofs.vos theories/GherkinBlockProofs.vok theories/GherkinBlockProofs.required_vos: theories/GherkinBlockProofs.v theories/Base.vos theories/UStr.vos theories/GherkinTypes.vos theories/Gherkin.vos theories/GherkinProofs.vos
 theories/GherkinProofs.vo theories/GherkinProofs.glob theories/GherkinProofs.v.beautified theories/GherkinProofs.required_vo: theories/GherkinProofs.v theories/Base.vo theories/UStr.vo theories/GherkinTypes.vo theories/Gherkin.vo gen/UnicodeTables.vo gen/GherkinTables.vo
 theories/GherkinProofs.vio: theories/GherkinProofs.v theories/Base.vio theories/UStr.vio theories/GherkinTypes.vio theories/Gherkin.vio gen/UnicodeTables.vio gen/GherkinTables.vio
 theories/GherkinProofs.vos theories/GherkinProofs.vok theories/GherkinProofs.required_vos: theories/GherkinProofs.v theories/Base.vos theories/UStr.vos theories/GherkinTypes.vos theories/Gherkin.vos gen/UnicodeTables.vos gen/GherkinTables.vos
@@ -169,9 +172,9 @@ props/C02.vos props/C02.vok props/C02.required_vos: props/C02.v theories/Base.vo
 props/C03.vo props/C03.glob props/C03.v.beautified props/C03.required_vo: props/C03.v theories/Base.vo theories/Status.vo theories/Rollup.vo theories/RollupProofs.vo gen/StatusTable.vo
 props/C03.vio: props/C03.v theories/Base.vio theories/Status.vio theories/Rollup.vio theories/RollupProofs.vio gen/StatusTable.vio
 props/C03.vos props/C03.vok props/C03.required_vos: props/C03.v theories/Base.vos theories/Status.vos theories/Rollup.vos theories/RollupProofs.vos gen/StatusTable.vos
-props/C04.vo props/C04.glob props/C04.v.beautified props/C04.required_vo: props/C04.v theories/Base.vo theories/UStr.vo theories/GherkinTypes.vo theories/Gherkin.vo theories/GherkinProofs.vo theories/GherkinRowProofs.vo gen/GherkinTables.vo
-props/C04.vio: props/C04.v theories/Base.vio theories/UStr.vio theories/GherkinTypes.vio theories/Gherkin.vio theories/GherkinProofs.vio theories/GherkinRowProofs.vio gen/GherkinTables.vio
-props/C04.vos props/C04.vok props/C04.required_vos: props/C04.v theories/Base.vos theories/UStr.vos theories/GherkinTypes.vos theories/Gherkin.vos theories/GherkinProofs.vos theories/GherkinRowProofs.vos gen/GherkinTables.vos
+props/C04.vo props/C04.glob props/C04.v.beautified props/C04.required_vo: props/C04.v theories/Base.vo theories/UStr.vo theories/GherkinTypes.vo theories/Gherkin.vo theories/GherkinProofs.vo theories/GherkinRowProofs.vo theories/GherkinBlockProofs.vo gen/GherkinTables.vo
+props/C04.vio: props/C04.v theories/Base.vio theories/UStr.vio theories/GherkinTypes.vio theories/Gherkin.vio theories/GherkinProofs.vio theories/GherkinRowProofs.vio theories/GherkinBlockProofs.vio gen/GherkinTables.vio
+props/C04.vos props/C04.vok props/C04.required_vos: props/C04.v theories/Base.vos theories/UStr.vos theories/GherkinTypes.vos theories/Gherkin.vos theories/GherkinProofs.vos theories/GherkinRowProofs.vos theories/GherkinBlockProofs.vos gen/GherkinTables.vos
 props/C05.vo props/C05.glob props/C05.v.beautified props/C05.required_vo: props/C05.v theories/Base.vo theories/UStr.vo theories/GherkinTypes.vo theories/Gherkin.vo theories/GherkinProofs.vo
 props/C05.vio: props/C05.v theories/Base.vio theories/UStr.vio theories/GherkinTypes.vio theories/Gherkin.vio theories/GherkinProofs.vio
 props/C05.vos props/C05.vok props/C05.required_vos: props/C05.v theories/Base.vos theories/UStr.vos theories/GherkinTypes.vos theories/Gherkin.vos theories/GherkinProofs.vos
